@@ -63,6 +63,7 @@ type partial struct {
 	Samples     []Sample       `json:"samples"`
 	Violations  []Violation    `json:"violations"`
 	Done        bool           `json:"done"`
+	Restart     bool           `json:"restart"` // a call was abandoned: continue in a fresh process
 	LastCase    int            `json:"last_case"`
 }
 
@@ -92,6 +93,7 @@ type options struct {
 	out      string
 	progress string
 	tmp      string
+	skip     string
 }
 
 var opt options
@@ -116,19 +118,19 @@ func defaultCases(prop, tier string) int {
 	switch prop {
 	case "C16":
 		if thorough {
-			return 21 * 12000
+			return 21 * 40000
 		}
-		return 21 * 500
+		return 21 * 1500
 	case "C17":
 		if thorough {
-			return 21 * 4000
+			return 21 * 20000
 		}
-		return 21 * 300
+		return 21 * 900
 	case "C18":
 		if thorough {
 			return 21 * 1000
 		}
-		return 21 * 30
+		return 21 * 50
 	}
 	return 0
 }
@@ -153,6 +155,7 @@ func main() {
 	flag.StringVar(&opt.out, "out", "", "(internal) result file of the worker")
 	flag.StringVar(&opt.progress, "progress", "", "(internal) progress file of the worker")
 	flag.StringVar(&opt.tmp, "tmp", "", "(internal) scratch directory")
+	flag.StringVar(&opt.skip, "skip", "", "(internal) comma-separated case indices that killed a previous worker")
 	flag.Parse()
 	if opt.prop != "C16" && opt.prop != "C17" && opt.prop != "C18" {
 		die("-prop must be C16, C17 or C18")
@@ -261,10 +264,14 @@ func workerMain() {
 			os.Rename(tmp, opt.out)
 		}
 	}
-	caseTimeout := 40 * time.Second
+	caseTimeout := 10 * time.Second
 	lastFlush := time.Now()
+	skip := map[string]bool{}
+	for _, f := range strings.Split(opt.skip, ",") {
+		skip[f] = true
+	}
 	for i := 0; i < opt.n; i++ {
-		if i%opt.workers != opt.worker || i < opt.from {
+		if i%opt.workers != opt.worker || i < opt.from || skip[fmt.Sprint(i)] {
 			continue
 		}
 		if opt.only >= 0 && i != opt.only {
@@ -327,6 +334,13 @@ func workerMain() {
 			}
 			p.Checks["violations_total"]++
 		}
+		if cr.Checks["call_timeouts"] > 0 || cr.Checks["case_timeouts"] > 0 {
+			// an abandoned goroutine is still running a library call (possibly allocating):
+			// hand the remaining cases to a fresh process
+			p.Restart = true
+			flush()
+			os.Exit(0)
+		}
 		if time.Since(lastFlush) > 2*time.Second {
 			flush()
 			lastFlush = time.Now()
@@ -368,7 +382,7 @@ func buildState(idx int, rng *rand.Rand, kind string, cr *caseResult) (d *drv, o
 				last = ops[len(ops)-1].Text()
 			}
 			cr.Violations = append(cr.Violations, Violation{
-				What:    fmt.Sprintf("%s: mutator %s panicked while the state was being built", kind, last),
+				What:    fmt.Sprintf("%s: a library call panicked while the state was being built (last operation of the history: %s)", kind, last),
 				Kind:    kind,
 				Config:  cfg.Text(),
 				History: historyText(ops),
@@ -469,7 +483,26 @@ func parentMain() {
 	res.DistinctNontrivial = len(distinct)
 	sort.SliceStable(res.Violations, func(i, j int) bool { return violationCase(res.Violations[i]) < violationCase(res.Violations[j]) })
 	if len(res.Violations) > 60 {
-		res.Violations = res.Violations[:60]
+		// keep 60, taking turns among the (kind, probe) groups so that one frequent finding
+		// does not hide the others
+		groups := map[string][]Violation{}
+		order := []string{}
+		for _, v := range res.Violations {
+			k := v.Kind + "|" + v.Probe
+			if _, ok := groups[k]; !ok {
+				order = append(order, k)
+			}
+			groups[k] = append(groups[k], v)
+		}
+		kept := []Violation{}
+		for round := 0; len(kept) < 60; round++ {
+			for _, k := range order {
+				if round < len(groups[k]) && len(kept) < 60 {
+					kept = append(kept, groups[k][round])
+				}
+			}
+		}
+		res.Violations = kept
 	}
 	res.WallS = float64(time.Since(start).Milliseconds()) / 1000
 	enc := json.NewEncoder(os.Stdout)
@@ -500,7 +533,9 @@ func superviseWorker(self, tmp string, k int, limit time.Duration) (*partial, []
 	var extra []Violation
 	from := 0
 	deadline := time.Now().Add(limit)
-	for attempt := 0; attempt < 8; attempt++ {
+	crashes := 0
+	skip := []string{}
+	for attempt := 0; attempt < 400 && crashes < 8; attempt++ {
 		out := filepath.Join(tmp, fmt.Sprintf("w%d.%d.json", k, attempt))
 		progress := filepath.Join(tmp, fmt.Sprintf("w%d.%d.progress", k, attempt))
 		errFile := filepath.Join(tmp, fmt.Sprintf("w%d.%d.stderr", k, attempt))
@@ -508,7 +543,7 @@ func superviseWorker(self, tmp string, k int, limit time.Duration) (*partial, []
 		os.MkdirAll(wtmp, 0o755)
 		args := []string{"-prop", opt.prop, "-tier", opt.tier, "-seed", fmt.Sprint(opt.seed), "-n", fmt.Sprint(opt.n),
 			"-workers", fmt.Sprint(opt.workers), "-worker", fmt.Sprint(k), "-from", fmt.Sprint(from),
-			"-out", out, "-progress", progress, "-tmp", wtmp}
+			"-out", out, "-progress", progress, "-tmp", wtmp, "-skip", strings.Join(skip, ",")}
 		if opt.only >= 0 {
 			args = append(args, "-only", fmt.Sprint(opt.only))
 		}
@@ -548,6 +583,11 @@ func superviseWorker(self, tmp string, k int, limit time.Duration) (*partial, []
 		if rerr == nil && p.Done && werr == nil {
 			return total, extra
 		}
+		if rerr == nil && p.Restart && werr == nil && !killed {
+			from = p.LastCase + 1
+			continue
+		}
+		crashes++
 		// the worker died: report the case it was running and continue behind it
 		prog := readProgress(progress)
 		var idx int
@@ -568,7 +608,12 @@ func superviseWorker(self, tmp string, k int, limit time.Duration) (*partial, []
 		if killed || prog == "" {
 			return total, extra
 		}
-		from = idx + 1
+		// continue behind the last case whose result reached the result file, without the
+		// case that killed the worker
+		skip = append(skip, fmt.Sprint(idx))
+		if rerr == nil && p.LastCase >= from {
+			from = p.LastCase + 1
+		}
 	}
 	return total, extra
 }
